@@ -65,7 +65,7 @@ CLAIMED = {
         technique="contract-based deductive verification: VCs from the real AST over opaque table terms and the polynomial vector abstraction, z3 + cvc5; bounded stand-ins for the two cross tables",
         design="5/C13"),
     "C19": dict(
-        text="PARTIAL (five of nine functions). seqs_to_consensus (align=False, equal-length gap-free sequences): loop invariant + post - one residue per position, each a "
+        text="PARTIAL (six of nine functions). seqs_to_consensus (align=False, equal-length gap-free sequences): loop invariant + post - one residue per position, each a "
              "most frequent residue of its column of logomaker's count matrix. seqs_to_regex (same domain): loop invariant against a recursive "
              "spec function - the result is, position by position, the single observed residue or the bracketed sorted set of observed residues. "
              "rankfrequency: exactly one Axes.step call whose x data are the non-missing values (frequencies when normalised) in descending order "
@@ -74,7 +74,8 @@ CLAIMED = {
              "labels equal colours, black exactly for the labels occurring fewer than min_count times, distinct non-rare labels distinct colours "
              "(numpy.unique / mask / in-place shuffle / dict(zip) modelled with permutation and position witnesses). density_scatter in discrete mode "
              "(term level): one scatter call whose x / y data are the coordinates of the distinct (x, y) rows, each once, coloured by its multiplicity, "
-             "densest last when sort is set. The other functions named by the "
+             "densest last when sort is set. seqlogos (equal-length sequences): returns the axes drawn on and logomaker's count matrix of exactly the "
+             "given sequences, which is the matrix handed to logomaker.Logo. The other functions named by the "
              "property are NOT under contract (see not_decided).",
         note=NOTE_COMMON + " logomaker's count matrix and matplotlib's drawing calls are assumed / recorded effects; regex semantics not mechanised.",
         technique="contract-based deductive verification: loop invariants over a recursive string spec (cvc5/z3), term-level effect contracts for the plot",
